@@ -384,12 +384,15 @@ func c13GenDoc0(t *rapid.T) c13Case {
 		nm := rapid.IntRange(1, 2).Draw(t, "nmut")
 		for i := 0; i < nm && len(all) > 0; i++ {
 			x := all[rapid.IntRange(0, len(all)-1).Draw(t, "pos")]
-			mut := rapid.SampledFrom([]string{"text-in-container", "child-in-leaf", "rename", "duplicate", "drop-children", "garbage-text", "nest-self", "scalar-for-holder", "entry-without-key"}).Draw(t, "mut")
+			mut := rapid.SampledFrom([]string{"text-in-container", "child-in-leaf", "rename", "duplicate", "drop-children", "garbage-text", "nest-self", "scalar-for-holder", "entry-without-key", "foreign-namespace"}).Draw(t, "mut")
 			c.Mutation = "xml-" + mut
 			if i > 0 {
 				c.Expect = "" // combined mutations: only totality is asserted
 			}
 			switch mut {
+			case "foreign-namespace":
+				// an element (and what it holds) in a namespace that is not the module's
+				x.NS = rapid.SampledFrom([]string{"urn:other", "urn:gm2", "gm", " "}).Draw(t, "ns")
 			case "scalar-for-holder":
 				// a scalar where a container or a list is declared
 				if len(holders) == 0 {
